@@ -22,7 +22,7 @@ import ast
 import os
 from pathlib import Path
 
-from pytolean import INT, CannotTranslate, Ctx, DataClass, Translator, lean_ident
+from pytolean import INT, CannotTranslate, Ctx, DataClass, Ret, Translator, lean_ident
 
 REPO = Path(os.environ.get("DASHLIVE_REPO", "/repo"))
 OUT = Path(__file__).resolve().parent.parent / "lean" / "DashLive" / "Gen" / "Timeline.lean"
@@ -102,9 +102,10 @@ def translate() -> str:
     # --- the tail
     c = Ctx()
     c.env = {n: (lean_ident(n), INT) for n in names}
-    res = tr.block(c, tail)
-    if res is None or not res[1].startswith("List "):
+    r = tr.block(c, tail)
+    if not isinstance(r, Ret) or r.is_tuple or not r.values[0][1].startswith("List "):
         raise CannotTranslate("the function does not end with `return <list>`")
+    res = r.values[0]
     used = [n for n in names if n in c.reads]
     tail_attrs = [a for a in tr.used_attrs]
     loop_attrs = sorted({lean for (o, a), lean in attrs.items() if any(f"{o}.{a}" in l for l in tr.loops)} | set(tail_attrs))
